@@ -144,16 +144,19 @@ crate::harnesses! { REG;
     /// quick required unwindset=BitIteratorBE:66,>::pow:8,SqrtPrecomputation:7 | F_17 (two-adicity 4, elements of maximal 2-power order included), generic SqrtPrecomputation::TonelliShanks over the table-backed field: ALL x
     #[unwind(28)]
     fn c11_prime_f17_plain() { prime_sqrt::<PF17>() }
-    /// thorough required timeout=3000 unwindset=BitIteratorBE:66,>::pow:8,SqrtPrecomputation:7 | F_31, F_127 (Case3Mod4), F_97 (two-adicity 5), F_257 (two-adicity 8), hand-written F_17: real Montgomery arithmetic, ALL x
+    /// thorough required timeout=3000 unwindset=BitIteratorBE:66,>::pow:8,SqrtPrecomputation:7,is_sq:130 | F_31, F_127 (Case3Mod4), hand-written F_17: real Montgomery arithmetic, ALL x
     #[unwind(28)]
-    fn c11_prime_more() { prime_sqrt::<DF31>(); prime_sqrt::<HF127>(); prime_sqrt::<DF97>(); prime_sqrt::<DF257>(); prime_sqrt::<HF17>() }
+    fn c11_prime_more() { prime_sqrt::<DF31>(); prime_sqrt::<HF127>(); prime_sqrt::<HF17>() }
+    /// thorough required timeout=3000 unwindset=BitIteratorBE:66,>::pow:10,SqrtPrecomputation:10,is_sq:260 | F_97 (two-adicity 5), F_257 (two-adicity 8): Tonelli-Shanks over real Montgomery arithmetic, ALL x
+    #[unwind(28)]
+    fn c11_prime_two_adic() { prime_sqrt::<DF97>(); prime_sqrt::<DF257>() }
     /// quick required unwindset=BitIteratorBE:66,>::pow:8,SqrtPrecomputation:7 | Fp2 = F_7[u]/(u^2+1): ALL 49 elements (c1 = 0 branch in both sub-cases included): sqrt Some iff x^((q-1)/2) in {0,1} (oracle power), root^2 = x, legendre
     #[unwind(28)]
     fn c11_fp2_f7() { ext_sqrt::<F7_2, O7_2>(24) }
     /// thorough required timeout=3000 unwindset=BitIteratorBE:66,>::pow:8,SqrtPrecomputation:7 | Fp2 = F_13[u]/(u^2-2): ALL 169 elements
     #[unwind(28)]
     fn c11_fp2_f13() { ext_sqrt::<F13_2, O13_2>(84) }
-    /// thorough required timeout=3000 unwindset=BitIteratorBE:66,>::pow:8,SqrtPrecomputation:7 | Fp3 = F_7[u]/(u^3-2) with its configured TWO_ADICITY / TRACE_MINUS_ONE_DIV_TWO / QUADRATIC_NONRESIDUE_TO_T: ALL 343 elements
+    /// thorough required timeout=3000 unwindset=BitIteratorBE:66,>::pow:10,SqrtPrecomputation:7 | Fp3 = F_7[u]/(u^3-2) with its configured TWO_ADICITY / TRACE_MINUS_ONE_DIV_TWO / QUADRATIC_NONRESIDUE_TO_T: ALL 343 elements
     #[unwind(28)]
     fn c11_fp3_f7() { ext_sqrt::<F7_3, O7_3>(171) }
     /// quick required unwindset=BitIteratorBE:66,>::pow:8,SqrtPrecomputation:7 | SW cofactor 4 over F_13: get_ys_from_x_unchecked / get_point_from_x_unchecked for ALL x: None iff no point has this abscissa; otherwise both ordinates in (smaller, larger) order (y = 0 included)
